@@ -1,10 +1,97 @@
 import TypstyleModel.Proofs.Cli
-/-! C14 — check mode is read-only and its exit status is truthful. Theorems hold for every
-library function `lib`, every file tree and every invocation shape. -/
+/-! C14 — check mode is read-only and its exit status is truthful.  Every theorem holds for every
+library function `lib`, every file tree `w` and every invocation `a` (options, order of inputs). -/
 namespace Typstyle.Cli
 
-/-- T14.1: `--check` leaves every file's content and modification mark unchanged. -/
+/-- T14.1: `--check` leaves every file's content and modification mark unchanged — single file,
+several files, standard input and `format-all`, with any style options. -/
 theorem C14_check_is_read_only (lib : Lib) (a : Args) (w : Entry) (rootName : String) (hc : a.check = true) :
     (run lib a w rootName).world = w := run_check_world lib a w rootName hc
+
+/-- T14.2: with `--check` no library result (formatted text or echoed input) is ever printed. -/
+theorem C14_check_prints_no_formatted_text (lib : Lib) (a : Args) (w : Entry) (rootName : String)
+    (hc : a.check = true) : outsOf (run lib a w rootName).evs = [] := by
+  unfold run
+  split
+  · rfl
+  · rename_i h
+    have hi : a.inplace = false := by cases h' : a.inplace <;> simp_all
+    split
+    · -- format-all
+      rename_i dir _
+      unfold runFormatAll
+      simp only
+      split
+      · simp
+      · rw [walk_eq_fold]
+        split <;> simp only [outsOf_append, foldl_allStep_outs, outsOf_infoEv] <;> simp [outsOf]
+    · split
+      · rfl
+      · rename_i input _ _
+        unfold runStdin
+        have := formatOne_check lib a hc hi none input { world := w } input (by simp [getInput])
+        cases hf : formatOne lib a none input { world := w } with
+        | mk st res =>
+          rw [hf] at this
+          cases res with
+          | none => simp at this
+          | some ch => simp only; simpa [outsOf] using this.2.1
+    · rfl
+    · rename_i ps _ _
+      unfold runFiles
+      have := (foldl_manyStep_check lib a hc hi w ps { st := { world := w } } rfl).2.1
+      simp only
+      split <;> simp only [outsOf_append, this] <;> simp [outsOf]
+
+/-- T14.3 (file list): the exit status is 1 exactly when some readable input differs from its
+formatted form (erroneous inputs never do) or some input is unreadable, and 0 otherwise. -/
+theorem C14_check_exit_files (lib : Lib) (a : Args) (w : Entry) (ps : List Path)
+    (hc : a.check = true) (hi : a.inplace = false) :
+    (runFiles lib a w ps).exit =
+      if (ps.any fun p => match readToString w p with
+            | some x => decide (Differs lib a (.text x))
+            | none => false) || (ps.any fun p => (readToString w p).isNone) then 1 else 0 := by
+  unfold runFiles
+  obtain ⟨_, _, hch, her⟩ := foldl_manyStep_check lib a hc hi w ps { st := { world := w } } rfl
+  simp only [Bool.false_or, Nat.zero_add] at hch her
+  simp only [her, hch]
+  by_cases hb : (ps.filter fun p => (readToString w p).isNone).length > 0
+  · have : ps.any (fun p => (readToString w p).isNone) = true := by
+      obtain ⟨p, hp⟩ := List.length_pos_iff_exists_mem.mp hb
+      simp only [List.mem_filter] at hp
+      exact List.any_eq_true.mpr ⟨p, hp.1, hp.2⟩
+    simp [hb, this]
+  · have hnone : ps.any (fun p => (readToString w p).isNone) = false := by
+      apply Bool.eq_false_iff.mpr
+      intro h
+      obtain ⟨p, hp, hpb⟩ := List.any_eq_true.mp h
+      exact hb (List.length_pos_iff_exists_mem.mpr ⟨p, List.mem_filter.mpr ⟨hp, hpb⟩⟩)
+    simp only [hb, if_false, hnone, Bool.or_false, exitOf, hc, Bool.true_and]
+    rfl
+
+/-- T14.3 (standard input). -/
+theorem C14_check_exit_stdin (lib : Lib) (a : Args) (w : Entry) (input : String)
+    (hc : a.check = true) (hi : a.inplace = false) :
+    (runStdin lib a w input).exit = if Differs lib a (.text input) then 1 else 0 := by
+  unfold runStdin
+  have := formatOne_check lib a hc hi none input { world := w } input (by simp [getInput])
+  cases hf : formatOne lib a none input { world := w } with
+  | mk st res =>
+    rw [hf] at this
+    obtain ⟨_, _, hr⟩ := this
+    simp only at hr
+    subst hr
+    simp [exitOf, hc]
+
+/-- T14.3 (`format-all`): the exit status is 1 exactly when an eligible file (regular, extension
+`typ`, not hidden, not below a hidden directory — the directory given may be called anything)
+differs from its formatted form or is unreadable, and 0 otherwise; erroneous files count as unchanged. -/
+theorem C14_check_exit_format_all (lib : Lib) (a : Args) (w : Entry) (dir : Option Path) (rootName : String)
+    (hc : a.check = true) (e : Entry) (he : w.get (dir.getD []) = some e) :
+    (runFormatAll lib a w dir rootName).exit =
+      if ((eligibleFiles e (dir.getD []) (rootNameOf (dir.getD []) rootName) 0).any fun f => decide (Differs lib a f.2)) ||
+         ((eligibleFiles e (dir.getD []) (rootNameOf (dir.getD []) rootName) 0).any fun f => decide (f.2 = .binary))
+      then 1 else 0 :=
+  runFormatAll_check_exit lib a w dir rootName hc e he _ rfl
 
 end Typstyle.Cli
